@@ -583,7 +583,7 @@ mod daemon_part {
             }
         }
         let start = std::time::Instant::now();
-        let budget = if thorough { 1200.0 } else { 35.0 };
+        let budget = if thorough { 3000.0 } else { 240.0 }; // safety net only: the enumeration is meant to complete
         let mut done = 0u64;
         let mut accepted = vec![0u64; n];
         let mut rejected = vec![0u64; n];
